@@ -108,9 +108,9 @@ Check C01_iterator_refines_sequential_reading.
 (* non-vacuity: a loop with a row, a zero-bound loop that must not run, a shadowing let *)
 Definition ex_prog : list stmt :=
   [ SLet [120%N] (ENum 7);
-    SLoop [105%N] (ENum 2) [ SLet [120%N] (EVar [105%N]); SRow [DExpr (EVar [120%N])] 3 ];
-    SLoop [106%N] (ENum 0) [ SRow [DNum 99] 5 ];
-    SRow [DExpr (EVar [120%N])] 7 ].
+    SLoop [105%N] (ENum 2) [ SLet [120%N] (EVar [105%N]); Ast.SRow [DExpr (EVar [120%N])] 3 ];
+    SLoop [106%N] (ENum 0) [ Ast.SRow [DNum 99] 5 ];
+    Ast.SRow [DExpr (EVar [120%N])] 7 ].
 Definition ex_handler (h : list (list dentry * N)) (r : list dentry * N) (c : ctx) : (list (list dentry * N) * ctx) + list (list dentry * N) :=
   inl (h ++ [r], c).
 Example C01_example :
